@@ -6,6 +6,7 @@ import (
 	"bufio"
 	"context"
 	"crypto/tls"
+	"encoding/base64"
 	"encoding/json"
 	"fmt"
 	"net"
@@ -118,6 +119,67 @@ type CConf struct {
 	Auth    string `json:"auth"`     // guest plain1 byround
 	Kind    string `json:"kind"`     // mem memtls
 	TLSOk   bool   `json:"tls_ok"`
+	// Builder: when given, the selectors and the authenticator are those a real ClientBuilder holds after these calls
+	// (CompSel, EncSel and Auth are then unused)
+	Builder []KOp `json:"builder,omitempty"`
+}
+
+// KOp is one ClientBuilder call (Hs/ClientBuilder.v: kop).
+type KOp struct {
+	Op  string `json:"op"` // comp enc guest transport plain key external
+	Arg string `json:"arg,omitempty"`
+	N   int    `json:"n,omitempty"`
+}
+
+func (o KOp) Coq() string {
+	switch o.Op {
+	case "comp":
+		return coqfmt.App("KComp", coqfmt.Str(o.Arg))
+	case "enc":
+		return coqfmt.App("KEnc", coqfmt.Str(o.Arg))
+	case "guest":
+		return "KGuest"
+	case "transport":
+		return "KTransport"
+	case "plain":
+		return coqfmt.App("KPlain", coqfmt.Nat(o.N))
+	case "key":
+		return coqfmt.App("KKey", coqfmt.Nat(o.N))
+	}
+	return coqfmt.App("KExternal", coqfmt.Nat(o.N))
+}
+
+// builderConfig makes the calls on a real ClientBuilder and returns the configuration it holds.
+func builderConfig(ops []KOp) *lime.ClientConfig {
+	b := lime.NewClientBuilder()
+	for _, o := range ops {
+		switch o.Op {
+		case "comp":
+			b.Compression(lime.SessionCompression(o.Arg))
+		case "enc":
+			b.Encryption(lime.SessionEncryption(o.Arg))
+		case "guest":
+			b.GuestAuthentication()
+		case "transport":
+			b.TransportAuthentication()
+		case "plain":
+			b.PlainAuthentication(fmt.Sprintf("c%d", o.N))
+		case "key":
+			b.KeyAuthentication(fmt.Sprintf("c%d", o.N))
+		case "external":
+			b.ExternalAuthentication(fmt.Sprintf("c%d", o.N), "iss")
+		}
+	}
+	return b.VerifConfig()
+}
+
+// callbacks returns the selectors and the authenticator of the configuration.
+func (c *CConf) callbacks() (lime.CompressionSelector, lime.EncryptionSelector, lime.Authenticator) {
+	if len(c.Builder) > 0 {
+		cfg := builderConfig(c.Builder)
+		return cfg.CompSelector, cfg.EncryptSelector, cfg.Authenticator
+	}
+	return compSelector(c.CompSel), encSelector(c.EncSel), authenticatorOf(c.Auth)
 }
 
 func selCoq(s string) string {
@@ -136,6 +198,13 @@ func (c *CConf) Coq() string {
 	kind := "(TTcp false)"
 	if c.Kind == "memtls" {
 		kind = "(TTcp true)"
+	}
+	if len(c.Builder) > 0 {
+		ops := make([]string, len(c.Builder))
+		for i, o := range c.Builder {
+			ops[i] = o.Coq()
+		}
+		return coqfmt.App("built_desc", coqfmt.List(ops), kind, coqfmt.Bool(c.TLSOk))
 	}
 	return coqfmt.Record("cd_comp", selCoq(c.CompSel), "cd_enc", selCoq(c.EncSel), "cd_auth", auth,
 		"cd_kind", kind, "cd_tls_ok", coqfmt.Bool(c.TLSOk))
@@ -266,9 +335,7 @@ func runClientEstablish(conf *CConf, script []SIn) bool {
 	cfg := lime.NewClientConfig()
 	cfg.Node = lime.Node{Identity: lime.Identity{Name: "u1", Domain: "verif.test"}, Instance: "i1"}
 	cfg.ChannelBufferSize = 4
-	cfg.CompSelector = compSelector(conf.CompSel)
-	cfg.EncryptSelector = encSelector(conf.EncSel)
-	cfg.Authenticator = authenticatorOf(conf.Auth)
+	cfg.CompSelector, cfg.EncryptSelector, cfg.Authenticator = conf.callbacks()
 	cfg.NewTransport = func(ctx context.Context) (lime.Transport, error) {
 		cmem, smem := memconn.Pipe(0)
 		mu.Lock()
@@ -376,10 +443,14 @@ func runClientScript(conf *CConf, script []SIn) *CObs {
 			var p struct {
 				Password string `json:"password"`
 				Key      string `json:"key"`
+				Token    string `json:"token"`
 			}
 			_ = json.Unmarshal(a, &p)
 			v := 0
-			s := p.Password + p.Key
+			s := p.Password + p.Key + p.Token
+			if b, err := base64.StdEncoding.DecodeString(s); err == nil && strings.HasPrefix(string(b), "c") {
+				s = string(b) // the builder's authenticators send the secret base64-encoded
+			}
 			if strings.HasPrefix(s, "c") {
 				v, _ = strconv.Atoi(s[1:])
 			}
@@ -461,8 +532,8 @@ func runClientScript(conf *CConf, script []SIn) *CObs {
 			}
 			done <- r
 		}()
-		r.ses, r.err = cc.EstablishSession(ctx, compSelector(conf.CompSel), encSelector(conf.EncSel),
-			lime.Identity{Name: "u1", Domain: "verif.test"}, authenticatorOf(conf.Auth), "i1")
+		csel, esel, au := conf.callbacks()
+		r.ses, r.err = cc.EstablishSession(ctx, csel, esel, lime.Identity{Name: "u1", Domain: "verif.test"}, au, "i1")
 	}()
 
 	var result *ret
